@@ -218,14 +218,19 @@ def check_c16(tier):
     bx, exx, _ = build_e2("exceptions", lib_flags=["-DMASA_EXCEPTIONS"], harness_flags=["-DMASA_EXCEPTIONS"], name="e2x", root=b.root)
     res2 = run_space(exx, "c16", tier, os.path.join(bx.dir, "c16x.out"))
     add_violations(rep, res2, "C16", build="exceptions")
+    # (i') / (ii') handles spelled like catalogue names, both builds
+    res1n = run_space(exe, "c16n", tier, os.path.join(b.dir, "c16n.out"))
+    add_violations(rep, res1n, "C16", build="exit")
+    res2n = run_space(exx, "c16n", tier, os.path.join(bx.dir, "c16nx.out"))
+    add_violations(rep, res2n, "C16", build="exceptions")
     # (iii) empty history: every solution-dependent API entry before any masa_init
     res3 = run_empty_history(b, exe, rep)
-    cover(rep, [res1, res2])
-    fatal_t = sum(1 for r in (res1, res2) for t in r["trans"] if t[3])
+    cover(rep, [res1, res2, res1n, res2n])
+    fatal_t = sum(1 for r in (res1, res2, res1n, res2n) for t in r["trans"] if t[3])
     rep.coverage["fatal_transitions_checked"] = fatal_t
     rep.coverage["empty_history_calls"] = res3
     rep.coverage["states"] += res3; rep.coverage["transitions"] += res3; rep.coverage["traces_validated_against_impl"] += res3
-    rep.assumptions += ["same alphabet as C12 plus select(unknown), init(new handle, bogus name), init(existing handle, misspelt name) in both registries; exit() build observed through wait status and captured stdout, exception build through catch(int)"]
+    rep.assumptions += ["same alphabet as C12 plus select(unknown), init(new handle, bogus name), init(existing handle, misspelt name), select(handle spelled like a solution name of the alphabet) in both registries; space c16n: handles {a, euler_1d} that may be spelled like the catalogue name of their own or another solution, select of registered/unregistered/decorated spellings; exit() build observed through wait status and captured stdout, exception build through catch(int)"]
     return rep.finish()
 
 
